@@ -164,6 +164,16 @@ func (w *World) doExtDeposit(in Intent) {
 			cmd.Type = in.Chain2
 			cmd.Recipient = eip55(destUser.Eth())
 		}
+		switch in.Op { // recipient spellings the connector accepts as a valid hex address
+		case "bare":
+			cmd.Recipient = strings.TrimPrefix(cmd.Recipient, "0x")
+		case "0X":
+			if strings.HasPrefix(cmd.Recipient, "0x") {
+				cmd.Recipient = "0X" + cmd.Recipient[2:]
+			}
+		case "lower":
+			cmd.Recipient = strings.ToLower(cmd.Recipient)
+		}
 		if in.Mut != "" { // malformed command payloads
 			cmd.Recipient = in.Mut
 		}
